@@ -305,3 +305,23 @@ PROPS['C10'] = dict(
     bounds='payload <= 4096, names <= 253 characters', trusted_base=TB_SIM + ['glue/glue_server.c (signature of write_dns)'],
     assumptions=AS_SIM + ['queries whose labels contain "." or NUL are outside the property (iodine represents names as dotted C strings)'],
 )
+
+PROPS['C05'] = dict(
+    bin='c05', sources=['props/c05.cc'] + SIMSRC2, unit_objs=UNIT, images=IMGS, engine='rc',
+    quick=dict(workers=8, cases=6000, budget=40, min_nontrivial=200),
+    thorough=dict(workers=16, cases=300000, budget=1200, min_nontrivial=10000),
+    rule='case = real iodined under ASan+UBSan (netmask, source checking on/off, -b on/off, record type, receive-buffer residue 00 / ff / byte / pattern) + '
+         'prelude of 0..3 honest scripted sessions (only with source checking on) and 0..2 sacrificial logged-in sessions of the attacker, each in a generated '
+         'state (upstream codec, downstream codec, lazy, fragment size; mid upstream transfer / mid downstream transfer / raw mode) + 1..24 hostile steps from '
+         '1..3 further addresses: raw bytes (lengths 0..4097 from a boundary list, random, 60000+), malformed DNS (odd counts, QR set, names with pointer loops, '
+         'pointers to or past the end, pointer pairs, reserved label types, unterminated, 255+ octets, labels of bytes >= 0x80 / NUL / dot / shell characters, '
+         'junk records, truncation, trailing garbage), protocol messages with adversarial userids / hashes / arguments, raw-mode frames of any command nibble and '
+         'length up to 65 KB, tun packets of 0..65000 bytes for any destination, a command letter followed by up to 240 arbitrary bytes, time steps. Oracle: (i) '
+         'no sanitizer report, server still running and back in select() (scheduler step bound + 20 s wall-clock watchdog per case); (ii) every honest session '
+         'active within 58 s sends a fresh one-fragment packet: written unchanged to the server tun device and acknowledged in a well-formed answer. Steps that '
+         'may legitimately act for an honest session (its own address; a correct raw login; anything when source checking is off) are excluded by construction. '
+         'non-trivial iff the server answered a hostile source, or a raw frame / short tun packet was processed',
+    engine_text='rapidcheck over choice tapes (and the same case function under libFuzzer, see fuzz tier); simnet hosting the real iodined; ASan+UBSan',
+    bounds='<= 3 honest + 2 sacrificial sessions, <= 24 hostile steps, <= 40 virtual s', trusted_base=TB_SIM,
+    assumptions=AS_SIM + ['uninitialised reads are not detectable (no MSan-instrumented C++ runtime here)'],
+)
